@@ -531,3 +531,27 @@ Proof.
   - unfold extend. rewrite firstn_app, Nat.sub_diag, firstn_all. cbn. now rewrite app_nil_r.
   - apply firstn_all.
 Qed.
+
+(* ---------------- tree re-insertion of a particle that left its cell (any integrator mode): the hybrid arrays are
+   untouched, N is unchanged, so the invariant of the encounter step is preserved; the particle array keeps
+   the same particles (the re-inserted one moves to the end, the last one into its slot), no access outside
+   the particle storage *)
+Theorem tree_reinsert_ok : forall s h i s' h', wf s -> i < sN s -> tree_reinsert s h i = (s', h') ->
+  h' = h /\ sN s' = sN s /\ wf s' /\ oob s' = oob s /\
+  aps (abs s') = remove_swap i (aps (abs s)) ++ [nth i (aps (abs s)) pzero] /\
+  (hyb_ok s h -> hyb_ok s' h').
+Proof.
+  intros s h i s' h' [Hm Ht] Hi H. unfold tree_reinsert in H. injection H as Hs Hh. subst h'.
+  set (s1 := mkS (tcfg s) (upd (mem s) i (nth (sN s - 1) (mem s) pzero)) (sN s - 1) (sNact s) (sNvar s) (tab s) (nlook s) (tree s)
+                 (oob s + chk (length (mem s)) i + chk (length (mem s)) (sN s - 1) + chk (length (mem s)) i)) in *.
+  assert (W1 : wf s1) by (split; cbn; [rewrite upd_length; lia|auto]).
+  destruct (add_spec s1 (nth i (mem s) pzero) W1) as (WA & OA & AA). rewrite Hs in *.
+  assert (HN : sN s' = sN s) by (subst s'; cbn; lia).
+  split; auto. split; auto. split; auto. split.
+  - rewrite OA. cbn. rewrite !chk_in by lia. lia.
+  - split.
+    + rewrite AA. cbn [aps abs]. f_equal.
+      * unfold s1. cbn [mem sN]. apply swap_abs; lia.
+      * f_equal. cbn. now rewrite nth_firstn_lt by lia.
+    + intros (V & HL & HK). unfold hyb_ok. rewrite HN. auto.
+Qed.
